@@ -11,15 +11,19 @@ EXPLANATION = ("The `cryptography` package is a trusted external; equality with 
                "the given or freshly generated IV, which is returned), pad exactly for CBC/ECB, hand over "
                "exactly the given data and associated data and finish with finalize() (where an authenticated "
                "mode verifies its tag); DeriveKey stores exactly Cryptographic Length / 8 bytes of what "
-               "derive_key returned for that length.  MAC, signatures, key wrapping and the KDF parameter "
-               "plumbing inside the cryptography engine are not under contract.")
+               "derive_key returned for that length.  MAC (HMAC over the table's hash / CMAC over the table's cipher of the key, fed exactly the data), "
+               "RFC 3394 wrap (wrapping key, material - in that order), key generation (one fresh urandom value of "
+               "length/8 bytes) and Sign (key loaded from the given bytes, the given data) are under contract too; "
+               "each key derivation function is built with the table's hash, the requested length and the request's "
+               "salt / iterations / derivation data and run on the key material; signature verification is not.")
 ASSUMPTIONS = ["the cryptography package computes the named primitives correctly, rejects tampered authenticated "
                "input in finalize(), and os.urandom returns fresh bytes of the requested length",
                "CryptographyEngine.create_symmetric_key returns length // 8 fresh bytes (model of the handler pass)"]
 
 
 def OBLIGATION_FILTER(name):
-    return any(k in name for k in ('trace.same-cipher', 'trace.derived-material', '/exploration', '/fragment',
+    return any(k in name for k in ('trace.same-cipher', 'trace.derived-material', 'trace.rfc3394', 'trace.fresh-key', 'trace.hmac',
+                                   'trace.signature', 'trace.kdf', '/exploration', '/fragment',
                                    '/extract', 'raises.'))
 
 
